@@ -234,6 +234,9 @@ var degenerateForms = []string{
 	"try { continue } catch e9 { try { e9.s += \"x\" } catch err9 { }\n[e9.s] }", "try { hembv.npInner = nil } catch err9 { }\nhembv.npInner\nhembs[0].npInner", "try { break } catch e9 { for i9 = 0; i9 < 3; i9++ { try { e9.s = i9 } catch err9 { }\ntry { e9.s } catch err9 { } }\ne9.s }",
 	// the value of make(type ...) is a type: nothing can be stored THROUGH it (Go keeps type descriptors in read-only memory)
 	"t9 = make(type a9, 1)\nu9 = make(type b9, \"x\")\n*t9 = *u9", "t9 = make(type a9, 1)\n*t9 = 5", "t9 = make(type a9, [1])\nfunc f9(p) { *p = *p }\nf9(t9)\nmake(a9)", "t9 = make(type a9, 1.5)\nl9 = [t9]\n*l9[0] = *l9[0]\nmake(a9)",
+	// bytes of a text the HOST handed out (type names, error texts): a store into the converted bytes must never reach the host's own memory
+	"b9 = toByteSlice(typeOf(1))\nb9[0] = 73\ntypeOf(1)", "b9 = toByteSlice(kindOf(\"s\"))\nb9[0] = 73\nb9 += 1\nkindOf(\"s\")", "try { 1 % 0 } catch e9 { b9 = toByteSlice(toString(e9))\nb9[0] = 88\ntoString(b9) }",
+	"b9 = toByteSlice(toString(1.5))\nb9[1] = 44\ntoString(1.5)", "r9 = toRuneSlice(typeOf(\"s\"))\nr9[0] = 83\ntypeOf(\"s\")",
 	"func rec(n) { return rec(n) }", "type T struct", "struct", "chan", "map", "len", "return 1, ", "throw", "break", "continue", "return",
 }
 
